@@ -154,24 +154,17 @@ func (v *valBool) encode(buf decoder.EncoderType) {
 
 func (v *valBool) decode(dec decoder.Decoder) error {
 	v.name = dec.Data()
-	_ = dec.Byte() // len is 1, read away
+	_ = dec.Int16() // value length is always 1, read away
 
-	if b := dec.Byte(); b == 1 {
-		v.val = append(v.val, true)
-	} else {
-		v.val = append(v.val, false)
-	}
+	v.val = append(v.val, dec.Byte() == 1)
 
 	// Check for additional values
 	vtag := dec.Byte()
-	for vtag != v.tag {
+	for vtag == v.tag {
 		//check name length
 		if l := dec.Int16(); l == 0 {
-			if b := dec.Byte(); b == 1 {
-				v.val = append(v.val, true)
-			} else {
-				v.val = append(v.val, false)
-			}
+			_ = dec.Int16()
+			v.val = append(v.val, dec.Byte() == 1)
 			vtag = dec.Byte()
 		} else {
 			dec.Seek(-2) //Rewind name length
